@@ -12,7 +12,8 @@
                     on the clone; compute_transaction_id feeds the hasher chain_id.to_be_bytes() then
                     tx.to_bytes(); Mint::id zeroes its contract input/output the same way.
   DOM-precompute    every Cacheable::precompute assigns `metadata = None` before it computes the new
-                    metadata (whose computation calls id(): otherwise id() returns the stale cached value);
+                    metadata (whose computation calls id(): otherwise id() returns the stale cached value), and
+                    makes no call that reads `self` before the clear (every accessor answers from the cache);
                     cached_id reads the id stored in that metadata.
 Not decided: SHA-256, staleness after a *_mut() accessor is used post precompute (allowed by the trait's docs).
 """
